@@ -24,10 +24,12 @@ import gc
 import json
 import os
 import sys
+import time
 import types
 import weakref
 
 MOD = 'c14mod'
+ITEM_TIMEOUT = 300          # seconds per forked item (a history is a few dozen queries)
 WORLD_OPS = ('defclass', 'deffunc')
 QUERY_OPS = ('bear', 'sub', 'thsub', 'theq', 'call')
 
@@ -421,9 +423,33 @@ def forked(item) -> dict:
         finally:
             os._exit(code)
     os.close(w)
-    with os.fdopen(r) as f:
-        data = f.read()
+    import select
+    import signal
+    chunks = []
+    deadline = time.time() + ITEM_TIMEOUT
+    timed_out = False
+    while True:
+        left = deadline - time.time()
+        if left <= 0:
+            timed_out = True
+            break
+        ready, _, _ = select.select([r], [], [], left)
+        if not ready:
+            continue
+        b = os.read(r, 1 << 16)
+        if not b:
+            break
+        chunks.append(b)
+    os.close(r)
+    if timed_out:
+        try:
+            os.kill(pid, signal.SIGKILL)
+        except ProcessLookupError:
+            pass
     _, status = os.waitpid(pid, 0)
+    if timed_out:
+        return {'error': f'timeout after {ITEM_TIMEOUT}s'}
+    data = b''.join(chunks).decode()
     if not data:
         return {'error': f'child died (status {status})'}
     return json.loads(data)
